@@ -267,11 +267,18 @@ void deterministic(Run& run, const std::function<void(const std::vector<uint8_t>
 	const bool th = run.args.tier == "thorough";
 	uint64_t tried = 0, novel = 0;
 	run.feedAll = true;
-	sweepCells(run.args.shard, run.args.nshards, th ? 24 : 8, th ? 32 : 24, np, [&](const std::vector<uint8_t>& s) {
+	auto recode = [](const std::vector<uint8_t>& s) {
 		std::vector<uint8_t> tape = {s[1], s[2], static_cast<uint8_t>(0xE0 + s[3]), s[4], s[5]};
 		tape.insert(tape.end(), s.begin() + 6, s.end());
-		feed(tape);
-	}, tried, novel);
+		return tape;
+	};
+	sweepCells(run.args.shard, run.args.nshards, th ? 24 : 8, th ? 32 : 24, np, [&](const std::vector<uint8_t>& s) { feed(recode(s)); }, tried, novel,
+			   [&](const std::vector<uint8_t>& s) {
+				   if (run.noteCurrent) {
+					   auto tape = recode(s);
+					   run.noteCurrent(tape.data(), tape.size());
+				   }
+			   });
 	run.feedAll = false;
 	run.cls("sweep:forced-reads-tried", tried);
 	run.cls("sweep:tapes-reaching-new-read-sites", novel);
